@@ -21,6 +21,9 @@ type Env struct {
 	imports map[string]string
 	loop    *loopInfo
 	depth   int
+	// captured variables of a closure under contract: name -> pointer to the variable's cell (read in the state the
+	// expression is evaluated in, so old(x) is the entry value)
+	cells map[string]*Val
 }
 
 func (env *Env) with(st *State) *Env {
@@ -44,6 +47,14 @@ func (e *Enc) envFor(fr *Frame, st *State) *Env {
 	}
 	if env.old == nil {
 		env.old = st
+	}
+	for _, fv := range fr.fn.FreeVars {
+		if v := fr.vals[fv]; v != nil && isPointer(fv.Type()) && v.Loc == nil && v.Clos == nil {
+			if env.cells == nil {
+				env.cells = map[string]*Val{}
+			}
+			env.cells[fv.Name()] = v
+		}
 	}
 	return env
 }
@@ -326,6 +337,9 @@ func (env *Env) evalIdent(name string) (*Val, error) {
 	}
 	if name == "nil" {
 		return mathVal("0", "Int"), nil
+	}
+	if c, ok := env.cells[name]; ok {
+		return e.loadLoc(env.st, e.ptrLoc(c)), nil
 	}
 	if env.fr != nil {
 		if v := env.lookupSSA(name); v != nil {
